@@ -133,11 +133,21 @@ def rust_part():
         die("expected two error-unwind loops, found %d" % len(loops))
     close_on_unwind = []
     dummy = []
+    walks = []
     for st in loops:
         body = src[st:st + 6000]
         c = body.find("close_continuation_marks(&last)")
         if c < 0:
             die("unwind loop without close_continuation_marks(&last)")
+        # Every frame an error drops goes through this loop: the loop is the FIRST thing the error branch does
+        # (no path that clears or truncates the frames before it), and up to the point where the mark is closed
+        # the only way out of the loop body is the `pop_count == 0` guard (frames of an enclosing instance).
+        head = src[src.rfind("if let Err(", 0, st):st]
+        first = re.fullmatch(r"if let Err\((?:mut )?e\) = result \{\s*", head) is not None
+        seg = body[:c]
+        exits = [m.start() for m in re.finditer(r"\breturn\b|\bbreak\b|\bcontinue\b", seg)]
+        guarded = len(exits) == 1 and 0 <= seg.find("pop_count == 0") < exits[0]
+        walks.append(first and guarded)
         take = body.find("weak_continuation_mark.take()")
         close_on_unwind.append(not (0 <= take < c))
         h = body.find("x.handler.take()")
@@ -147,6 +157,8 @@ def rust_part():
         dummy.append(bool(re.search(r"stack_frames\.is_empty\(\)\s*\{[^}]*?stack_frames\.push\(\s*StackFrame::new\(", hb, re.S)))
     if len(set(close_on_unwind)) != 1 or len(set(dummy)) != 1:
         die("the two unwind loops differ: close=%s dummy=%s" % (close_on_unwind, dummy))
+    # frames dropped elsewhere on the error path without closing their marks
+    bypass = len(re.findall(r"stack_frames\s*\.clear\(\)", src[loops[0] - 1500:loops[0]])) > 0
     # --- open path of set_state_from_continuation
     m = re.search(r"pub fn set_state_from_continuation\(ctx: &mut VmCore<'_>, this: Self\)", src)
     if not m:
@@ -160,7 +172,9 @@ def rust_part():
     if "strong_count > 1" not in cond_txt:
         die("open path: unexpected condition: " + cond_txt)
     close_when_shared = "weak_count" not in cond_txt
-    return {"close_on_unwind": close_on_unwind[0], "dummy_frame": dummy[0], "close_when_shared": close_when_shared,
+    return {"close_on_unwind": close_on_unwind[0] and all(walks) and not bypass, "mark_closed_before_taken": close_on_unwind[0],
+            "unwind_walks_every_frame": all(walks) and not bypass,
+            "dummy_frame": dummy[0], "close_when_shared": close_when_shared,
             "open_path_condition": cond_txt}
 
 
